@@ -50,6 +50,93 @@ def getter(m, kind):
     return {"raises": "unknown getter " + kind}
 
 
+def run_purity(c):
+    """c: {"what": ..., "dtype": "float"|"int", ...}.  Every array argument is kept as a bitwise copy; after
+    constructing / setting / reading, the arguments must be unchanged and a repetition with the SAME objects
+    must give the same law."""
+    from EasyFEA.Models._utils import Get_Pmat, Apply_Pmat, KelvinMandel_Matrix
+    from EasyFEA.Models.Elastic import _laws
+    dt = float if c["dtype"] == "float" else np.int64
+    args = {k: np.array(v, dtype=(dt if k in c.get("typed", []) else float)) for k, v in c["arrays"].items()}
+    before = {k: v.copy() for k, v in args.items()}
+    out = {"modified": [], "repeat_err": 0.0, "steps": []}
+
+    def check(step):
+        for k in args:
+            if args[k].dtype != before[k].dtype or args[k].shape != before[k].shape or args[k].tobytes() != before[k].tobytes():
+                d = float(np.abs(args[k].astype(float) - before[k].astype(float)).max())
+                out["modified"].append({"arg": k, "after": step, "max_change": d})
+                args[k] = before[k].copy()          # restore, keep looking
+
+    def cmp(a, b, step):
+        e = float(np.abs(np.asarray(a, dtype=float) - np.asarray(b, dtype=float)).max() / max(1e-300, np.abs(np.asarray(b, dtype=float)).max()))
+        if e > out["repeat_err"]:
+            out["repeat_err"] = e
+            out["repeat_step"] = step
+    w = c["what"]
+    if w == "aniso":
+        ax = (args["axis1"], args["axis2"])
+        m1 = _laws.Anisotropic(c["dim"], args["C"], c["voigt"], *ax)
+        C1, S1 = m1.C, m1.S
+        check("Anisotropic(...)")
+        m2 = _laws.Anisotropic(c["dim"], args["C"], c["voigt"], *ax)            # same objects again
+        cmp(m2.C, C1, "second Anisotropic(...) from the same array")
+        check("second Anisotropic(...)")
+        m1.Set_C(args["C"], c["voigt"])
+        cmp(m1.C, C1, "Set_C with the same array")
+        m1.Set_C(args["C"], c["voigt"])
+        cmp(m1.C, C1, "Set_C twice")
+        check("Set_C")
+        cmp(m1.C, m1.C, "repeated read of C")
+        cmp(m1.S, S1, "S after Set_C twice")
+        a, b_ = m1.Get_sqrt_C_S()
+        a2, b2 = m1.Get_sqrt_C_S()
+        cmp(a2, a, "repeated Get_sqrt_C_S")
+        check("reads")
+        out["C00"] = [float(np.ravel(C1)[0]), float(np.ravel(m2.C)[0]), float(np.ravel(m1.C)[0])]
+    elif w == "law":
+        cls = getattr(_laws, c["cls"])
+        kw = dict(c["scalars"])
+        for k in c["fields"]:
+            kw[k] = args[k]
+        if c["cls"] == "TransverselyIsotropic":
+            kw.update(axis_l=args["axis1"], axis_t=args["axis2"])
+        elif c["cls"] == "Orthotropic":
+            kw.update(axis_1=args["axis1"], axis_2=args["axis2"])
+        m1 = cls(c["dim"], **kw)
+        C1, S1 = m1.C, m1.S
+        check("%s(...)" % c["cls"])
+        m2 = cls(c["dim"], **kw)
+        cmp(m2.C, C1, "second %s(...) from the same objects" % c["cls"])
+        for k in c["fields"]:
+            setattr(m1, k, args[k])                                              # re-assign the same object
+        cmp(m1.C, C1, "C after re-assigning the same parameter objects")
+        cmp(m1.S, S1, "S after re-assigning the same parameter objects")
+        cmp(m1.C, m1.C, "repeated read of C")
+        m1.Get_sqrt_C_S()
+        try:
+            m1.Walpole_Decomposition()      # raises for mixed scalar / field parameters (np.array of ragged ci): not a purity matter
+        except ValueError:
+            pass
+        check("setters and reads")
+    elif w == "utils":
+        P1 = Get_Pmat(args["axis1"], args["axis2"])
+        check("Get_Pmat")
+        cmp(Get_Pmat(args["axis1"], args["axis2"]), P1, "second Get_Pmat")
+        K1 = KelvinMandel_Matrix(c["dim"], args["M"])
+        check("KelvinMandel_Matrix")
+        cmp(KelvinMandel_Matrix(c["dim"], args["M"]), K1, "second KelvinMandel_Matrix of the same array")
+        check("second KelvinMandel_Matrix")
+        if c["dim"] == 3:
+            Pf = np.asarray(P1, dtype=float)
+            args["P"] = Pf
+            before["P"] = Pf.copy()
+            R1 = Apply_Pmat(args["P"], args["M"].astype(float) if args["M"].dtype != float else args["M"])
+            check("Apply_Pmat")
+            cmp(Apply_Pmat(args["P"], args["M"].astype(float)), R1, "second Apply_Pmat")
+    return out
+
+
 def main():
     from EasyFEA.Models._utils import Get_Pmat, Apply_Pmat, KelvinMandel_Matrix
     from EasyFEA.Models.Elastic import _laws
@@ -89,12 +176,14 @@ def main():
             out["apply"].append({"raises": "%s: %s" % (type(ex).__name__, ex)})
     for c in req.get("km", []):
         out["km"].append({"R": tolist(KelvinMandel_Matrix(c["dim"], arr(c["M"])))})
-    for c in req.get("aniso", []):
-        try:
-            m = _laws.Anisotropic(c["dim"], arr(c["C"]), c["voigt"], arr(c["axes"][0]), arr(c["axes"][1]))
-            out["aniso"].append({"C": tolist(m.C), "S": tolist(m.S)})
-        except Exception as ex:  # noqa
-            out["aniso"].append({"raises": "%s: %s" % (type(ex).__name__, ex)})
+    for key in ("aniso", "anisof"):
+        out[key] = []
+        for c in req.get(key, []):
+            try:
+                m = _laws.Anisotropic(c["dim"], arr(c["C"]), c["voigt"], arr(c["axes"][0]), arr(c["axes"][1]))
+                out[key].append({"C": tolist(m.C), "S": tolist(m.S)})
+            except Exception as ex:  # noqa
+                out[key].append({"raises": "%s: %s" % (type(ex).__name__, ex)})
     for c in req.get("lazy", []):
         try:
             cls = getattr(_laws, c["cls"])
@@ -123,6 +212,13 @@ def main():
             out["lazy"].append({"reads": reads, "fresh": fresh})
         except Exception as ex:  # noqa
             out["lazy"].append({"raises": "%s: %s" % (type(ex).__name__, ex)})
+    out["purity"] = []
+    for c in req.get("purity", []):
+        try:
+            out["purity"].append(run_purity(c))
+        except Exception as ex:  # noqa
+            import traceback
+            out["purity"].append({"raises": "%s: %s" % (type(ex).__name__, str(ex)[:200]), "tb": traceback.format_exc()[-600:]})
     for c in req.get("boundary", []):
         try:
             cls = getattr(_laws, c["cls"])
